@@ -1,0 +1,130 @@
+//go:build verif
+
+package checkers
+
+// Contracts for the verification machinery under /verif (comment-only file;
+// compiled only with -tags verif, contains no executable code).
+
+// ---- C14: parameters reach the checker unchanged; thresholds are exact
+
+//@ func init@tooManyResults_checker.go$1
+//@   prop C14
+//@   nosafety receivers and contexts are non-nil by construction of the checker (constructor postcondition), not restated here
+//@   ensures @param-plumbed the("tooManyResultsChecker").maxParams == unbox(info.Params["maxResults"].Value, "int")
+
+//@ func (*tooManyResultsChecker).warn
+//@   prop C14
+//@   nosafety receivers and contexts are non-nil by construction of the checker (constructor postcondition), not restated here
+//@   emits warned(n)
+
+//@ func (*tooManyResultsChecker).VisitFuncDecl
+//@   prop C14
+//@   nosafety node shapes are the subject of the C01 sweep
+//@   requires c != nil && c.ctx != nil && c.ctx.Context != nil && c.ctx.TypesInfo != nil && decl != nil
+//@   ensures @boundary-exact emitted(warned) == old(emitted(warned)) + ite(typeIs(typeOfSpec(c.ctx, decl.Name), "*types.Signature") && tupleLen(sigResults(cast(typeOfSpec(c.ctx, decl.Name), "*types.Signature"))) > c.maxParams, 1, 0)
+
+//@ func init@hugeParam_checker.go$1
+//@   prop C14
+//@   nosafety receivers and contexts are non-nil by construction of the checker (constructor postcondition), not restated here
+//@   ensures @param-plumbed the("hugeParamChecker").sizeThreshold == unbox(info.Params["sizeThreshold"].Value, "int")
+
+//@ func (*hugeParamChecker).warn
+//@   prop C14
+//@   nosafety receivers and contexts are non-nil by construction of the checker (constructor postcondition), not restated here
+//@   emits warned(cause)
+
+//@ spec hugeSpec(c *hugeParamChecker, id *ast.Ident) bool = sizeOKSpec(c.ctx, typeOfSpec(c.ctx, id)) && sizesSizeof(c.ctx.SizesInfo, typeOfSpec(c.ctx, id)) >= c.sizeThreshold
+
+//@ func (*hugeParamChecker).checkParams
+//@   prop C14
+//@   nosafety node shapes are the subject of the C01 sweep
+//@   requires c != nil && c.ctx != nil && c.ctx.Context != nil && c.ctx.TypesInfo != nil
+//@   call (*hugeParamChecker).warn requires @quoted-size arg2 == sizesSizeof(c.ctx.SizesInfo, typeOfSpec(c.ctx, arg1)) && arg2 >= c.sizeThreshold
+//@   loop 2 body @boundary-exact emitted(warned) == old(emitted(warned)) + ite(hugeSpec(c, p.Names[$i]), 1, 0)
+
+//@ func init@rangeValCopy_checker.go$1
+//@   prop C14
+//@   nosafety receivers and contexts are non-nil by construction of the checker (constructor postcondition), not restated here
+//@   ensures @param-plumbed the("rangeValCopyChecker").sizeThreshold == unbox(info.Params["sizeThreshold"].Value, "int")
+//@   ensures @param-plumbed-skip the("rangeValCopyChecker").skipTestFuncs == unbox(info.Params["skipTestFuncs"].Value, "bool")
+
+//@ func (*rangeValCopyChecker).warn
+//@   prop C14
+//@   nosafety receivers and contexts are non-nil by construction of the checker (constructor postcondition), not restated here
+//@   emits warned(n)
+
+//@ func (*rangeValCopyChecker).VisitStmt
+//@   prop C14
+//@   nosafety node shapes are the subject of the C01 sweep
+//@   requires c != nil && c.ctx != nil && c.ctx.Context != nil && c.ctx.TypesInfo != nil
+//@   call (*rangeValCopyChecker).warn requires @quoted-size arg2 == sizesSizeof(c.ctx.SizesInfo, typeOfSpec(c.ctx, cast(stmt, "*ast.RangeStmt").Value))
+//@   ensures @boundary-exact emitted(warned) == old(emitted(warned)) + ite(typeIs(stmt, "*ast.RangeStmt") && cast(stmt, "*ast.RangeStmt").Value != nil && sizeOKSpec(c.ctx, typeOfSpec(c.ctx, cast(stmt, "*ast.RangeStmt").Value)) && sizesSizeof(c.ctx.SizesInfo, typeOfSpec(c.ctx, cast(stmt, "*ast.RangeStmt").Value)) >= c.sizeThreshold, 1, 0)
+
+//@ func init@rangeExprCopy_checker.go$1
+//@   prop C14
+//@   nosafety receivers and contexts are non-nil by construction of the checker (constructor postcondition), not restated here
+//@   ensures @param-plumbed the("rangeExprCopyChecker").sizeThreshold == unbox(info.Params["sizeThreshold"].Value, "int")
+//@   ensures @param-plumbed-skip the("rangeExprCopyChecker").skipTestFuncs == unbox(info.Params["skipTestFuncs"].Value, "bool")
+
+//@ func (*rangeExprCopyChecker).warn
+//@   prop C14
+//@   nosafety receivers and contexts are non-nil by construction of the checker (constructor postcondition), not restated here
+//@   emits warned(rng)
+
+//@ func (*rangeExprCopyChecker).VisitStmt
+//@   prop C14
+//@   nosafety node shapes are the subject of the C01 sweep
+//@   requires c != nil && c.ctx != nil && c.ctx.Context != nil && c.ctx.TypesInfo != nil
+//@   call (*rangeExprCopyChecker).warn requires @quoted-size arg2 == sizesSizeof(c.ctx.SizesInfo, c.ctx.TypesInfo.Types[cast(stmt, "*ast.RangeStmt").X].Type)
+//@   ensures @boundary-exact emitted(warned) == old(emitted(warned)) + ite(typeIs(stmt, "*ast.RangeStmt") && cast(stmt, "*ast.RangeStmt").Key != nil && cast(stmt, "*ast.RangeStmt").Value != nil && tvAddressable(c.ctx.TypesInfo.Types[cast(stmt, "*ast.RangeStmt").X]) && typeIs(c.ctx.TypesInfo.Types[cast(stmt, "*ast.RangeStmt").X].Type, "*types.Array") && sizeOKSpec(c.ctx, c.ctx.TypesInfo.Types[cast(stmt, "*ast.RangeStmt").X].Type) && sizesSizeof(c.ctx.SizesInfo, c.ctx.TypesInfo.Types[cast(stmt, "*ast.RangeStmt").X].Type) >= c.sizeThreshold, 1, 0)
+
+//@ func init@nestingReduce_checker.go$1
+//@   prop C14
+//@   nosafety receivers and contexts are non-nil by construction of the checker (constructor postcondition), not restated here
+//@   ensures @param-plumbed the("nestingReduceChecker").bodyWidth == unbox(info.Params["bodyWidth"].Value, "int")
+
+//@ func (*nestingReduceChecker).warnLoop
+//@   prop C14
+//@   nosafety receivers and contexts are non-nil by construction of the checker (constructor postcondition), not restated here
+//@   emits warned(cause)
+
+//@ func (*nestingReduceChecker).checkLoopBody
+//@   prop C14
+//@   nosafety node shapes are the subject of the C01 sweep
+//@   requires c != nil
+//@   ensures @boundary-exact emitted(warned) == old(emitted(warned)) + ite(len(body) == 1 && typeIs(body[0], "*ast.IfStmt") && len(cast(body[0], "*ast.IfStmt").Body.List) >= c.bodyWidth && isNilIface(cast(body[0], "*ast.IfStmt").Else), 1, 0)
+
+//@ func init@ifElseChain_checker.go$1
+//@   prop C14
+//@   nosafety receivers and contexts are non-nil by construction of the checker (constructor postcondition), not restated here
+//@   ensures @param-plumbed the("ifElseChainChecker").minThreshold == unbox(info.Params["minThreshold"].Value, "int")
+
+//@ func init@commentedOutCode_checker.go$1
+//@   prop C14
+//@   nosafety receivers and contexts are non-nil by construction of the checker (constructor postcondition), not restated here
+//@   ensures @param-plumbed the("commentedOutCodeChecker").minLength == unbox(info.Params["minLength"].Value, "int")
+
+//@ func init@captLocal_checker.go$1
+//@   prop C14
+//@   nosafety receivers and contexts are non-nil by construction of the checker (constructor postcondition), not restated here
+//@   ensures @param-plumbed the("captLocalChecker").paramsOnly == unbox(info.Params["paramsOnly"].Value, "bool")
+
+//@ func init@elseif_checker.go$1
+//@   prop C14
+//@   nosafety receivers and contexts are non-nil by construction of the checker (constructor postcondition), not restated here
+//@   ensures @param-plumbed the("elseifChecker").skipBalanced == unbox(info.Params["skipBalanced"].Value, "bool")
+
+//@ func init@truncateCmp_checker.go$1
+//@   prop C14
+//@   nosafety receivers and contexts are non-nil by construction of the checker (constructor postcondition), not restated here
+//@   ensures @param-plumbed the("truncateCmpChecker").skipArchDependent == unbox(info.Params["skipArchDependent"].Value, "bool")
+
+//@ func init@underef_checker.go$1
+//@   prop C14
+//@   nosafety receivers and contexts are non-nil by construction of the checker (constructor postcondition), not restated here
+//@   ensures @param-plumbed the("underefChecker").skipRecvDeref == unbox(info.Params["skipRecvDeref"].Value, "bool")
+
+//@ func init@unnamedResult_checker.go$1
+//@   prop C14
+//@   nosafety receivers and contexts are non-nil by construction of the checker (constructor postcondition), not restated here
+//@   ensures @param-plumbed the("unnamedResultChecker").checkExported == unbox(info.Params["checkExported"].Value, "bool")
